@@ -239,9 +239,14 @@ class PDFResourceManager:
                 font = PDFCIDFont(self, spec)
             elif subtype == "Type0":
                 # Type0 Font
+                if "DescendantFonts" not in spec:
+                    raise PDFFontError("Type0 font without DescendantFonts")
                 dfonts = list_value(spec["DescendantFonts"])
                 assert dfonts
                 subspec = dict_value(dfonts[0]).copy()
+                if subspec.get("Subtype") is LIT("Type0"):
+                    # e.g. a descendant that points back at the font itself
+                    raise PDFFontError("The descendant of a Type0 font is a Type0 font")
                 for k in ("Encoding", "ToUnicode"):
                     if k in spec:
                         subspec[k] = resolve1(spec[k])
